@@ -810,10 +810,16 @@ def _quotes_for_string_value(value: str) -> str | None:
         return '"'
     if '"' in value:
         return "'"
-    if ' ' in value:
+    if ' ' in value or '\t' in value:
         return "'"
     if not value:
         return "'"  # so that empty strings are shown as ''
+    if value[0] in '_#$[];':
+        # would otherwise be read as a tag, comment, frame code, bracket or text field
+        return "'"
+    lower = value.lower()
+    if lower.startswith(('data_', 'save_')) or lower in ('loop_', 'stop_', 'global_'):
+        return "'"  # reserved words
     return None
 
 
